@@ -54,7 +54,7 @@ func Main(defs []PropDef) {
 	}
 	sort.Slice(defs, func(i, j int) bool { return defs[i].ID < defs[j].ID })
 
-	withTests := *tier == "thorough"
+	withTests := false // _test.go files are not part of the shipped tool; the rules look at production code only
 	prog, err := core.Load(withTests, "")
 	if err != nil {
 		fmt.Printf("UNDECIDED load failed: %v\n", err)
